@@ -333,7 +333,7 @@ pub fn run_c19(ctx: &mut Ctx) -> ! {
         // ---- proptest-generated schedules (shrinking by the library)
         let step = prop_oneof![3 => (1usize..5).prop_map(Step::Read), 1 => Just(Step::Interrupt)];
         let strat = (0..pool.len(), proptest::collection::vec(step, 0..48), prop_oneof![Just(1usize), Just(2), Just(3), Just(64)]);
-        let mut runner = TestRunner::new(Config { cases: n_random / WORKERS as u32, failure_persistence: None, rng_seed: RngSeed::Fixed(ctx.seed ^ (0x1900 + w as u64)), max_shrink_iters: 4000, ..Config::default() });
+        let mut runner = TestRunner::new(Config { cases: n_random / WORKERS as u32, failure_persistence: None, rng_seed: RngSeed::Fixed(runner_seed(ctx.seed, 0x1900, w as u64)), max_shrink_iters: 4000, ..Config::default() });
         let counted = std::cell::RefCell::new((0u64, Vec::<u64>::new(), true));
         let res = runner.run(&strat, |(fi, script, dm)| {
             let b = &pool[fi];
